@@ -17,6 +17,7 @@ from harness import core
 from harness.core import Case, ImplResult, Failure
 
 _PLUGIN = None
+TIME_SLACK = float(os.environ.get('VERIF_TIME_SLACK', '4'))
 
 
 def load_plugin(pid):
@@ -32,11 +33,18 @@ def load_plugin(pid):
 
 def _worker(args):
     """Generate and run a share of the cases in a worker process."""
-    pid, tier, seed, index, nworkers, deadline = args
+    pid, tier, seed, index, nworkers, seconds = args
     try:
         p = load_plugin(pid)
+        if hasattr(p, 'warmup'): p.warmup()
+        # the clock starts only now: importing thermosteam, building the chemicals and compiling the numba kernels
+        # (cold cache for every VERIF_REPO copy) must not eat the budget of cases.  The deadline is a safety net
+        # (TIME_SLACK x the nominal seconds), not the thing that decides how many cases run: a run cut short by it
+        # is flagged `truncated` and reported.
+        deadline = time.time() + seconds * TIME_SLACK
         rng = random.Random(seed * 1000003 + index)
         out = []
+        truncated = False
         for case in p.generate(rng, tier, index, nworkers):
             try:
                 res = p.run_impl(case)
@@ -44,8 +52,9 @@ def _worker(args):
                 res = ImplResult(model_in=[], outs=[], failures=[], tags=['adapter-crash'])
                 res.crash = ''.join(traceback.format_exception_only(type(e), e))[-500:] + traceback.format_exc()[-1500:]
             out.append((case, res))
-            if time.time() > deadline: break
-        return out
+            if time.time() > deadline:
+                truncated = True; break
+        return ('ok', out, truncated)
     except Exception:
         return ('worker-crash', traceback.format_exc())
 
@@ -145,7 +154,7 @@ def main(argv=None):
     jobs = a.jobs or (16 if tier == 'thorough' else 8)
     jobs = max(1, min(jobs, os.cpu_count() or 1))
     budget = p.budget(tier)
-    deadline = time.time() + budget.get('seconds', 120)
+    seconds = budget.get('seconds', 120)
     executed = []        # (case, res)
     known, fixed = core.load_known(pid)
     pre_cases = list(p.corpus()) if hasattr(p, 'corpus') else []
@@ -160,17 +169,19 @@ def main(argv=None):
             r = ImplResult([], [], [], ['adapter-crash']); r.crash = traceback.format_exc()[-2000:]
             executed.append((c, r))
     crashed = []
+    truncated_workers = 0
     if jobs == 1:
-        r = _worker((pid, tier, seed, 0, 1, deadline))
+        r = _worker((pid, tier, seed, 0, 1, seconds))
         results = [r]
     else:
         with ProcessPoolExecutor(max_workers=jobs) as ex:
-            results = list(ex.map(_worker, [(pid, tier, seed, i, jobs, deadline) for i in range(jobs)]))
+            results = list(ex.map(_worker, [(pid, tier, seed, i, jobs, seconds) for i in range(jobs)]))
     for r in results:
         if isinstance(r, tuple) and r and r[0] == 'worker-crash':
             print('harness error: worker crashed\n' + r[1], file=sys.stderr)
             log(r[1]); return 2
-        executed.extend(r)
+        executed.extend(r[1])
+        if r[2]: truncated_workers += 1
     for c, r in executed:
         if getattr(r, 'crash', None):
             crashed.append((c, r.crash))
@@ -209,14 +220,25 @@ def main(argv=None):
     any_oracle_new = any(k == 'oracle' and s not in known_sigs for (k, s) in groups)
     rng = random.Random(seed ^ 0x5eed)
     for (kind, sig), fl in sorted(groups.items()):
+        rate_note = None
         if kind == 'oracle' and sig in known_sigs:
-            line = f'KNOWN-FINDING: property={pid} {known_sigs[sig]["what"]} [{sig}] ({len(fl)} case(s) this run)'
+            k = known_sigs[sig]
+            ncases = len({id(f.case) for f in fl})
+            line = f'KNOWN-FINDING: property={pid} {k["what"]} [{sig}] ({ncases} case(s) this run)'
             print(line); printed.append(line)
-            continue
+            # a listed finding is identified by its signature (an input class computed by the oracle) AND, where the
+            # entry records one, by its base rate: many more hits than the recorded share of cases means something
+            # else now fails under the same signature, which is reported as a violation of its own.
+            mf = k.get('max_fraction')
+            if mf is None or ncases <= max(k.get('min_count', 5), mf * len(executed)):
+                continue
+            rate_note = (f'listed finding [{sig}] hit {ncases} of {len(executed)} cases, above its recorded ceiling '
+                         f'{mf:g} of the cases: a different failure is now hiding under this signature')
         rep = min((f for f in fl if f.case is not None), key=lambda f: len(f.case.ops), default=None)
         suffix = ''
-        payload = {'property': pid, 'kind': kind, 'signature': sig, 'what': fl[0].what, 'seed': seed, 'tier': tier,
-                   'count': len(fl)}
+        payload = {'property': pid, 'kind': kind, 'signature': sig + (':rate-exceeded' if rate_note else ''),
+                   'what': rate_note or fl[0].what, 'seed': seed, 'tier': tier, 'count': len(fl)}
+        if rate_note: payload['example_failure'] = fl[0].what
         if rep is not None:
             case = rep.case
             # shrink while the same (kind, signature) failure persists
@@ -253,11 +275,11 @@ def main(argv=None):
             payload['theorems'] = lean['theorems']
             if not any_oracle_new: suffix = ' no-failing-input-found'
         rdir.mkdir(exist_ok=True)
-        rp = rdir / f'{pid}-{slug(sig)}.json'
+        rp = rdir / f'{pid}-{slug(sig + ("_rate-exceeded" if rate_note else ""))}.json'
         rp.write_text(json.dumps(payload, indent=1, default=str))
         line = f'VIOLATION property={pid} replay={rp.relative_to(core.ROOT)}{suffix}'
         # keep the required shape: the words no-failing-input-found end the line
-        print(f'# {kind} [{sig}] {fl[0].what[:300]}')
+        print(f'# {kind} [{sig}] {(rate_note or fl[0].what)[:300]}')
         print(line); printed.append(line)
         violations += 1
 
@@ -271,7 +293,11 @@ def main(argv=None):
         'oracle_failures': oracle_failures, 'histogram': dict(sorted(hist.items())),
         'lean_modules': p.LEAN_MODULES, 'exhaustive': getattr(p, 'EXHAUSTIVE', {}).get(tier, False),
     }
-    extra = {'verdict_lines': printed, 'known_findings_listed': [k['signature'] for k in known],
+    nominal = budget.get('cases')
+    if truncated_workers:
+        print(f'# note: the time budget ({seconds}s x {TIME_SLACK:g}) cut the run short in {truncated_workers} of {jobs} '
+              f'worker(s): {len(executed)} cases executed' + (f' of about {nominal} nominal' if nominal else ''))
+    extra = {'truncated_by_time_budget': bool(truncated_workers), 'nominal_cases': nominal, 'verdict_lines': printed, 'known_findings_listed': [k['signature'] for k in known],
              'fixed_findings_listed': [k.get('commit', '') + ' ' + k.get('what', '') for k in fixed],
              'jobs': jobs}
     if hasattr(p, 'extra_evidence'): extra.update(p.extra_evidence(executed, model_outs))
@@ -280,7 +306,12 @@ def main(argv=None):
     print(f'{pid} [{tier}] obligations={lean["obligations"]} discharged={lean["discharged"]} '
           f'cases={len(executed)} lines={lines} nontrivial={len(nontrivial)} disagreements={disagreements} '
           f'oracle_failures={oracle_failures} violations={violations} wall={time.time() - t0:.1f}s')
-    return 1 if violations else 0
+    if violations: return 1
+    if truncated_workers and nominal and len(executed) < 0.1 * nominal:
+        print(f'harness error: only {len(executed)} of about {nominal} nominal cases ran within the time budget; '
+              f'inconclusive (raise VERIF_TIME_SLACK on a slow machine)', file=sys.stderr)
+        return 2
+    return 0
 
 
 if __name__ == '__main__':
